@@ -162,7 +162,7 @@ def gen_cases(tier, rng):
     # data faults
     for name in ['empty', 'empty_with_columns', 'string_first', 'string_middle', 'string_last', 'string_unused_column',
                  'numeric_strings', 'nan_first_cell', 'nan_middle', 'nan_last_cell', 'none_value', 'nan_unused_column',
-                 'datetime_column']:
+                 'datetime_column', 'nan_float32_column', 'nan_float16_column', 'nan_in_nullable_float_column']:
         add(group='data', host='-', wrap='-', fault=name, entry='database', db='-', expect='BiogemeError')
     for name in ['nan_after_construction', 'string_after_construction']:
         add(group='data', host='-', wrap='-', fault=name, entry='biogeme', db='-', expect='BiogemeError')
@@ -589,6 +589,11 @@ def execute(case):
                 bad.loc[1, 'c'] = np.nan
             elif f == 'none_value':
                 bad['a'] = [1.0, None, 3.0]
+            elif f in ('nan_float32_column', 'nan_float16_column'):
+                # NaN in a numeric column whose dtype is a float other than float64 (data downcast to save memory)
+                bad['a'] = np.array([1.0, np.nan, 3.0], dtype=np.float32 if f == 'nan_float32_column' else np.float16)
+            elif f == 'nan_in_nullable_float_column':
+                bad['b'] = pd.array([4.0, None, 6.0], dtype='Float64')
             elif f == 'datetime_column':
                 bad['b'] = pd.to_datetime(['2020-01-01', '2020-01-02', '2020-01-03'])
             elif f in ('nan_after_construction', 'string_after_construction'):
